@@ -123,6 +123,8 @@ class SrcInfo:
         'Poll': ['Ready', 'Pending'], 'Cow': ['Borrowed', 'Owned'], 'Err': ['Incomplete', 'Error', 'Failure'],
         'Needed': ['Unknown', 'Size'], 'Ordering': ['Less', 'Equal', 'Greater'],
         'Entry': ['Occupied', 'Vacant'], 'Either': ['Left', 'Right'],
+        # tokio::select! with four branches (the only one in the crate): enum Out { _0, _1, _2, _3, Disabled }
+        'Out': ['_0', '_1', '_2', '_3', 'Disabled'],
     }
     STD_DISCR = {('Ordering', 'Less'): -1, ('Ordering', 'Equal'): 0, ('Ordering', 'Greater'): 1}
 
@@ -436,11 +438,11 @@ def parse_place(p):
     if mi:
         b, pr = parse_place(mi.group(1)); return (b, pr + [('index', mi.group(2))])
     if p.startswith('*'):
-        b, pr = parse_place(p[1:]); return (b, pr + [('deref',)])
+        b, pr = parse_place(p[1:]); return (b, pr + [('deref', _deref_kind(p[1:]))])
     if p.startswith('(') and p.endswith(')'):
         inner = p[1:-1]
         if inner.startswith('*'):
-            b, pr = parse_place(inner[1:]); return (b, pr + [('deref',)])
+            b, pr = parse_place(inner[1:]); return (b, pr + [('deref', _deref_kind(inner[1:]))])
         if inner.startswith('('):
             d = 0
             for j, ch in enumerate(inner):
@@ -459,6 +461,23 @@ def parse_place(p):
         if m:
             return (b, pr + [('field', int(m.group(1)), m.group(2))])
     raise Unsupported('place ' + p)
+
+
+_CUR_FN = [None]
+
+
+def _deref_kind(base_text):
+    """'ref' when the dereferenced place is a reference (transparent in the value model), 'box' when it is
+    a Box or a raw pointer obtained from one (a BoxV unwraps), '?' when unknown"""
+    fn = _CUR_FN[0]
+    if fn is None:
+        return '?'
+    t = place_type(fn, base_text).strip()
+    if t.startswith('&'):
+        return 'ref'
+    if t.startswith(('*const', '*mut', 'Box<', 'std::boxed::Box<')):
+        return 'box'
+    return '?'
 
 
 def operand_type(fn, o):
@@ -665,7 +684,11 @@ def compile_stmt(fn, st):
 def compile_fn(fn):
     if fn.compiled is None:
         out = {}
-        for bb, sts in fn.raw.items():
-            out[bb] = [compile_stmt(fn, s) for s in sts]
+        _CUR_FN[0] = fn
+        try:
+            for bb, sts in fn.raw.items():
+                out[bb] = [compile_stmt(fn, s) for s in sts]
+        finally:
+            _CUR_FN[0] = None
         fn.compiled = out
     return fn.compiled
